@@ -1159,6 +1159,8 @@ impl MdGen<'_> {
             5 => format!("echo ünï cmd{k}"),
             _ => format!("echo cmd{k}"),
         };
+        // now and then the command is empty (`$ ` and nothing else): still a test
+        let first = if !self.opts.benign && self.rng.chance(1, 40) { String::new() } else { first };
         s.cmd.push(first);
         if self.rng.chance(1, 4) {
             for j in 0..self.rng.range(1, 2) {
